@@ -337,7 +337,7 @@ INTERFERENCE_FORMULAS = [
     'MATCH("banana",words,0)', 'INDEX(words,2)', 'MATCH(4,lst,0)', 'LARGE({5,1,4},2)', 'LARGE(lst,2)', 'A1+$B$2', 'SUM(A1:B2)', 'when+1', 'DAY(when)', 'N(when)',
     '"abc', 'nosuch', 'NOSUCH(1)', '((', '#N/A', 'IFERROR(1/0,"e")', 'TRIM("  a  b ")', 'UPPER("aé")', '{1,2;3,4}', '{1,2,3}*2', 'lst', '1.5=1.5', '2>1.0',
     'ROUND(2.5,0)', 'INT(f1)&""', 'MAX(i1,f1)&""', 'MIN(t,2)', 'COUNT(lst)', 'CONCATENATE(i1,f1,t)', 'TEXTJOIN(",",TRUE,i1,f1,t)', 'AND(1,t)', 'OR(z0,zf)',
-    'XOR(i1,f1)', 'NOT(zf)', 'ISNUMBER(t)', 'ISNUMBER(f1)', 'ISLOGICAL(i1)', 'ISLOGICAL(t)', 'TYPE(1)', 'SIGN(f1)&""', 'ABS(t)', 'DEC2HEX(255)', 'BASE(10,2)']
+    'XOR(i1,f1)', 'NOT(zf)', 'PI()', 'TRUE()', 'FALSE()', 'NA()', 'PI()*2', 'SUM()', 'ISNUMBER(t)', 'ISNUMBER(f1)', 'ISLOGICAL(i1)', 'ISLOGICAL(t)', 'TYPE(1)', 'SIGN(f1)&""', 'ABS(t)', 'DEC2HEX(255)', 'BASE(10,2)']
 
 
 def fresh_process_outcomes(scratch, formulas):
@@ -363,6 +363,25 @@ def interference_case(seq, fresh=None):
         need = set(f for _, f, _ in seq) | set(n[1] for _, _, n in seq if n)
         fresh = fresh_process_outcomes(native.SCRATCH['dir'], sorted(need))
     ps = [e2e_fresh.setup(new_parser()) for _ in range(3)]
+    # listeners that answer nothing but scribble on what they are handed (the argument list of a call, the cell objects of a
+    # reference): whatever they are handed belongs to that one event - no later evaluation, on any parser, may see the scribble
+    def scribble_args(name, args, setter):
+        try:
+            args.append('scribble')
+        except Exception:
+            pass
+
+    def scribble_cell(*a):
+        for c in a[:-1]:
+            for attr, v in (('label', 'ZZ9'), ('row', None), ('col', None)):
+                try:
+                    setattr(c, attr, v)
+                except Exception:
+                    pass
+    for q in ps[:2]:
+        q.on('callFunction', scribble_args)
+        q.on('callCellValue', scribble_cell)
+        q.on('callRangeValue', scribble_cell)
     for step, (pi, f, nested) in enumerate(seq):
         if nested is not None:
             got_inner = []
@@ -528,6 +547,26 @@ def check_totality(rng, tier, names=None):
                     bad = 'parse raised %s' % type(ex).__name__
                 if bad and len(fails) < 5:
                     fails.append({'formula': text, 'host': 'listener %s: %s %r' % (ev, kind, v), 'detail': bad})
+    # the same record shape with debug output on (stderr swallowed): failing formulas of every kind
+    import contextlib
+    import io
+    import hotxlfp as _h
+    pd = _h.Parser(debug=True)
+    pd.set_function('BOOM', lambda *a: (_ for _ in ()).throw(RuntimeError('boom')))
+    pd.set_variable('arr', [1, 2])
+    for text in ('1+1', '-"a"', '-{1,2}', '{1,2}<1', 'BOOM()', 'BOOM()+1', 'SQRT(-1)', '1/0', '((', '"abc', 'nosuch', 'NOSUCH(1)', '#N/A', 'arr&arr', '-arr', 'arr<arr',
+                 'SUM(BOOM())', 'IF(BOOM(),1,2)', 'A1', 'A1:B2', ''):
+        cases += 1
+        try:
+            with contextlib.redirect_stderr(io.StringIO()):
+                r = run_budgeted(lambda: pd.parse(text))
+            bad = well_formed(r)
+        except Budget:
+            bad = 'does not terminate within the line budget'
+        except BaseException as ex:
+            bad = 'parse raised %s' % type(ex).__name__
+        if bad and len(fails) < 5:
+            fails.append({'formula': text, 'debug': True, 'host': 'Parser(debug=True)', 'detail': bad})
     # listeners that work on the emitter / the parser while an event is being delivered: subscribe (themselves, a successor),
     # unsubscribe, subscribe once, emit, register names, evaluate; exceptions with args of every shape
     for ev, text in LISTENER_EVENTS:
@@ -548,6 +587,17 @@ def check_totality(rng, tier, names=None):
 
 def replay_formula(rp):
     """ generic replay of an e2e failure: formula (+ variable bindings by pool index) """
+    if rp.get('debug'):
+        import contextlib
+        import io
+        import hotxlfp as _h
+        pd = _h.Parser(debug=True)
+        pd.set_function('BOOM', lambda *a: (_ for _ in ()).throw(RuntimeError('boom')))
+        pd.set_variable('arr', [1, 2])
+        with contextlib.redirect_stderr(io.StringIO()):
+            r = pd.parse(rp['formula'])
+        print('Parser(debug=True).parse(%r) -> %r' % (rp['formula'], r))
+        return r
     if rp.get('interference'):
         seq = [(s[0], s[1], tuple(s[2]) if s[2] else None) for s in rp['interference']]
         r = interference_case(seq)
